@@ -238,6 +238,12 @@ func buildDataset(c *fw.Ctx, o dsOpts) *dataset {
 		retention = o.retentionFn(r, t.Res, span)
 	}
 	defs := defsFor(specs, nil, func(*ref.TableSpec) time.Duration { return retention })
+	for i := range defs {
+		// after its first flush a row store flushes again on a timer of 10x the flush duration unless a
+		// minimum latency is set (row_store.go flush()): without this the memory/disk split chosen below
+		// would silently decay into "all on disk" a few milliseconds after the dataset is built
+		defs[i].MinFlush = time.Hour
+	}
 	d := &dataset{specs: specs, retention: retention}
 	d.spec = &d.specs[0]
 	n := o.minPoints + r.Intn(o.maxPoints-o.minPoints+1)
